@@ -16,15 +16,36 @@ long g_eval_payload;                 /* havocked by every child evaluation: the 
 
 /* payload objects of non-null heap-typed values: only for the payload types the job names
  * (the struct mirrors exist only where the rendered code mentions them) */
+/* IC-frame is content-for-content for heap payloads: the stub also records the payload's contents */
 #ifdef PAYLOAD_IMAGINARY
-#define ENS_PAYLOAD_IMAGINARY __CPROVER_ensures((__exc == 0 && V_IS(__CPROVER_return_value, IMAGINARY) && !V_ISNULL(__CPROVER_return_value)) ==> IS_FRESH(__CPROVER_return_value->_value.p, sizeof(struct Imaginary)))
+struct Imaginary g_eval_imag[G_MAXEVAL];
+#define ASG_PAYLOAD_IMAGINARY , g_eval_imag[g_eval_n].a, g_eval_imag[g_eval_n].b
+#define ENS_PAYLOAD_IMAGINARY __CPROVER_ensures((__exc == 0 && V_IS(__CPROVER_return_value, IMAGINARY) && !V_ISNULL(__CPROVER_return_value)) ==> \
+   (IS_FRESH(__CPROVER_return_value->_value.p, sizeof(struct Imaginary)) && \
+    SET_EQ(g_eval_imag[__CPROVER_old(g_eval_n)].a, ((struct Imaginary *)__CPROVER_return_value->_value.p)->a) && \
+    SET_EQ(g_eval_imag[__CPROVER_old(g_eval_n)].b, ((struct Imaginary *)__CPROVER_return_value->_value.p)->b)))
+#define IMAG_SAME(o, k) (*(long *)&((struct Imaginary *)(o)->_value.p)->a == *(long *)&g_eval_imag[k].a && *(long *)&((struct Imaginary *)(o)->_value.p)->b == *(long *)&g_eval_imag[k].b)
+#define FRAME_IMAG(o, snap, k) ((V_IS(snap, IMAGINARY) && !V_ISNULL(snap)) ==> IMAG_SAME(o, k))
 #else
+#define ASG_PAYLOAD_IMAGINARY
 #define ENS_PAYLOAD_IMAGINARY
+#define FRAME_IMAG(o, snap, k) 1
 #endif
 #ifdef PAYLOAD_LITERAL
-#define ENS_PAYLOAD_LITERAL __CPROVER_ensures((__exc == 0 && V_IS(__CPROVER_return_value, LITERAL) && !V_ISNULL(__CPROVER_return_value)) ==> IS_FRESH(__CPROVER_return_value->_value.p, sizeof(struct std_string)))
+/* a std::string is opaque; "unchanged" = the object's 32 bytes are unchanged (every mutating stub havocs them) */
+unsigned long g_eval_str[G_MAXEVAL][4];
+#define STR_W(p, j) (((unsigned long *)(p))[j])
+#define ASG_PAYLOAD_LITERAL , g_eval_str[g_eval_n][0], g_eval_str[g_eval_n][1], g_eval_str[g_eval_n][2], g_eval_str[g_eval_n][3]
+#define ENS_PAYLOAD_LITERAL __CPROVER_ensures((__exc == 0 && V_IS(__CPROVER_return_value, LITERAL) && !V_ISNULL(__CPROVER_return_value)) ==> \
+   (IS_FRESH(__CPROVER_return_value->_value.p, sizeof(struct std_string)) && \
+    SET_EQ(g_eval_str[__CPROVER_old(g_eval_n)][0], STR_W(__CPROVER_return_value->_value.p, 0)) && SET_EQ(g_eval_str[__CPROVER_old(g_eval_n)][1], STR_W(__CPROVER_return_value->_value.p, 1)) && \
+    SET_EQ(g_eval_str[__CPROVER_old(g_eval_n)][2], STR_W(__CPROVER_return_value->_value.p, 2)) && SET_EQ(g_eval_str[__CPROVER_old(g_eval_n)][3], STR_W(__CPROVER_return_value->_value.p, 3))))
+#define STR_SAME(o, k) (STR_W((o)->_value.p, 0) == g_eval_str[k][0] && STR_W((o)->_value.p, 1) == g_eval_str[k][1] && STR_W((o)->_value.p, 2) == g_eval_str[k][2] && STR_W((o)->_value.p, 3) == g_eval_str[k][3])
+#define FRAME_STR(o, snap, k) ((V_IS(snap, LITERAL) && !V_ISNULL(snap)) ==> STR_SAME(o, k))
 #else
+#define ASG_PAYLOAD_LITERAL
 #define ENS_PAYLOAD_LITERAL
+#define FRAME_STR(o, snap, k) 1
 #endif
 #ifdef PAYLOAD_TABCHAR
 #define ENS_PAYLOAD_TABCHAR __CPROVER_ensures((__exc == 0 && V_IS(__CPROVER_return_value, TABCHAR) && !V_ISNULL(__CPROVER_return_value)) ==> IS_FRESH(__CPROVER_return_value->_value.p, sizeof(struct vec_char)))
@@ -44,7 +65,7 @@ long g_eval_payload;                 /* havocked by every child evaluation: the 
 struct Value *VCALL_Expression_value(struct Expression *e, struct Context *ctx)
 __CPROVER_requires(__exc == 0)
 __CPROVER_requires(g_eval_n >= 0 && g_eval_n < G_MAXEVAL)
-__CPROVER_assigns(g_eval_n, g_eval_ret[g_eval_n], g_eval_snap[g_eval_n], g_eval_node[g_eval_n], g_eval_payload, __exc, __exc_type, __exc_obj)
+__CPROVER_assigns(g_eval_n, g_eval_ret[g_eval_n], g_eval_snap[g_eval_n], g_eval_node[g_eval_n], g_eval_payload, __exc, __exc_type, __exc_obj ASG_PAYLOAD_IMAGINARY ASG_PAYLOAD_LITERAL)
 __CPROVER_assigns(g_eval_n == 0: VALUE_FIELDS(&g_operand0); g_eval_n == 1: VALUE_FIELDS(&g_operand1); g_eval_n == 2: VALUE_FIELDS(&g_operand2); g_eval_n == 3: VALUE_FIELDS(&g_operand3))
 __CPROVER_ensures(__exc == 0 || __exc == 1)
 __CPROVER_ensures(__exc == 1 ==> (PTR_EQ(__exc_type, G2C_EXC_RuntimeError) && IS_FRESH(__exc_obj, sizeof(struct RuntimeError)) && g_eval_n == __CPROVER_old(g_eval_n)))
